@@ -34,7 +34,7 @@ TAGS = {
     "op.end:get_state": {"C01", "C08", "C04", "C15", "C12"},
     "op.end:metrics": {"C18", "C06", "C05", "C12", "C11"},
     "op.end:next": {"C14"},
-    "op.end:stop": {"C04", "C13", "C11", "C10"},
+    "op.end:stop": {"C04", "C13", "C11", "C10", "C01"},      # C01: the state read after stop() returned is final
     "op.end:drop_store": {"C15", "C04", "C13"},
     "op.end:close": {"C04", "C13"},
     "op.end:unsub": {"C09", "C10", "C13"},
@@ -80,10 +80,11 @@ TAGS = {
     "chloop.exit": {"C10", "C09"},
     "iter.end": {"C14", "C13"},
     "iter.drop": {"C14", "C13"},
-    "stop.pool": {"C04", "C15", "C13", "C11"},
-    "stop.drain": {"C04", "C15", "C13", "C11"},
+    "stop.pool": {"C04", "C15", "C13", "C11", "C01"},
+    "stop.drain": {"C04", "C15", "C13", "C11", "C01"},
     "chfwd.begin": {"C10", "C09", "C03"},
-    "stop.join": {"C04", "C15", "C13", "C11"},
+    "sub.spawned": {"C10", "C09", "C13"},
+    "stop.join": {"C04", "C15", "C13", "C11", "C01"},
 }
 
 
@@ -93,7 +94,7 @@ PROBE_TAGS = {
     "op:dispatch": {"C01", "C02", "C04", "C05", "C06", "C18"},
     "op:stop": {"C04", "C02"}, "op:close": {"C04", "C02"}, "op:drop_store": {"C15", "C04"},
     "join": {"C04", "C15", "C11", "C10"}, "stop.drain": {"C04", "C15", "C11"},
-    "op:unsub": {"C09", "C10"}, "op:add_sub": {"C09", "C07"}, "op:subscribed": {"C10", "C09"}, "op:iter": {"C14"},
+    "op:unsub": {"C09", "C10"}, "op:add_sub": {"C09", "C07"}, "op:subscribed": {"C10", "C09"}, "sub.reg": {"C10", "C09"}, "op:iter": {"C14"},
     "op:next": {"C14"}, "iter.end": {"C14"}, "iter.drop": {"C14"}, "chjoin": {"C10", "C09"}, "ctxdrop": {"C10"},
     "snap": {"C09", "C07", "C03"}, "clear": {"C09", "C04"}, "chfwd": {"C10"}, "w.start": {"C11", "C02"}, "w.cb": {"C11", "C02"},
     "op:add_reducer": {"C07"}, "op:add_mw": {"C07"}, "op:wait": set(),
@@ -375,6 +376,25 @@ def do_gen(ctx, inst, limit):
         shutil.rmtree(d, ignore_errors=True)
 
 
+def recorded_run(trace_path, run):
+    """the events the harness recorded for one run of a free-run log (for the violation artefact)"""
+    out, cur = [], None
+    try:
+        with open(trace_path) as f:
+            for line in f:
+                try:
+                    e = json.loads(line)
+                except ValueError:
+                    continue
+                if e.get("ev") == "reset":
+                    cur = e["d"].get("id") if isinstance(e.get("d"), dict) else None
+                if cur == run:
+                    out.append(e)
+    except OSError:
+        pass
+    return out[:3000]
+
+
 def do_free(ctx, inst, reps):
     d = tlc.workdir("free_%s_%s" % (ctx.pid, inst["name"]))
     try:
@@ -400,6 +420,7 @@ def do_free(ctx, inst, reps):
             art = save_artifact(ctx, "free_%s" % inst["name"],
                                 {"kind": "free-run trace rejected", "instance": inst["name"], "run": v.get("run"),
                                  "event": ev, "invariant": v.get("invariant"), "config": instances.harness_config(inst),
+                                 "recorded": recorded_run(tr, v.get("run")),
                                  "runs": [{"id": v.get("run"), "prog": progs[v["run"]] if isinstance(v.get("run"), int) else None}]})
             if mine:
                 ctx.violations.append(("recorded execution of %s cannot be explained by the specification at event %s"
